@@ -82,6 +82,7 @@ type explorer struct {
 	deadline      time.Time
 	timedOut      bool
 	distinctSig   map[string]bool
+	outputs       map[string]string
 	abortReasons  map[string]int
 	violCount     map[string]int
 	fixed         map[string]uint64 // replay mode: every input variable is fixed
